@@ -9,10 +9,13 @@ def fixed(prop,key,commit,what): F.append(dict(status="fixed",property=prop,key=
 HEXID="SMGP message id is written as 10 raw octets by IEncode but presented as 20 hex digits by IDecode; the asymmetry is pinned by the unedited suite (smgp30/pdu_deliver_test.go:34-55, pdu_submit_test.go:101-114), so no fix: commit can remove it"
 for t in ("Deliver","SubmitResp"):
     known("C01",f"C01|roundtrip|smgp30.{t}|field=MsgID/raw-in-hex-out",HEXID)
+for t in ("Deliver","SubmitResp"):
+    known("C11",f"C11|reencode|smgp30.{t}|error","a decoded smgp30."+t+" cannot be encoded again: "+HEXID)
 TN="a 16-octet authenticator whose LAST octet(s) are 0x00 comes back without them (1/256 of MD5 digests): the suite requires short textual authenticators to come back unpadded (smgp30/pdu_login_test.go:73-91), so trailing NULs must be stripped; interior NULs were repaired by 45f5e6c"
 for site,f in (("cmpp20.PduConnect","AuthenticatorSource"),("cmpp20.PduConnectResp","AuthenticatorISMG"),("cmpp30.Connect","AuthenticatorSource"),("cmpp30.ConnectResp","AuthenticatorISMG"),("smgp30.Login","AuthenticatorClient"),("smgp30.LoginResp","AuthenticatorServer")):
     known("C01",f"C01|roundtrip|{site}|field={f}/trailing-nul",TN)
     known("C02",f"C02|decode|{site}|field={f}/trailing-nul",TN)
+    known("C15",f"C15|verify|{site}|trailing-nul","a correct peer is refused when the MD5 digest ends in 0x00: "+TN)
 known("C02","C02|layout|smgp30.ActiveTestResp|trailing","smgp30.ActiveTestResp.IEncode emits a 13th 'Reserved' octet although SMGP 3.0.3 section 5.2.2.5.2 defines Active_Test_Resp as header only; the 13-octet image is pinned by smgp30/pdu_activetest_test.go (TestActiveTestResp_IEncode), the decode side was repaired")
 
 fixed("C04","C04|bad-prefix-accepted|{CMPP,SMPP}Codec.Decode|prefix={0,1,2,3}; C04|panic|{CMPP,SMPP}Codec.DecodeBlocked|prefix={0,1,2,3}","dd83ab5","frame extractors accepted a length prefix of 0..3: Decode returned an empty/short frame (forever for 0), DecodeBlocked panicked slicing left[4:n]")
